@@ -1,5 +1,6 @@
 (* Base/Util.v — association lists, result type, list helpers shared by every model file. *)
 From Coq Require Export List String Ascii Bool Arith.
+From Coq Require Import DecimalString.
 Export ListNotations.
 #[global] Open Scope string_scope.
 #[global] Open Scope list_scope.
@@ -13,6 +14,7 @@ Fixpoint sconcat (sep : string) (l : list string) : string :=
   | [x] => x
   | x :: t => x +++ sep +++ sconcat sep t
   end.
+Definition nat_str (n : nat) : string := NilEmpty.string_of_uint (Nat.to_uint n).
 Definition starts_uu (s : string) : bool :=
   match s with String a (String b _) => (Ascii.eqb a "_"%char && Ascii.eqb b "_"%char) | _ => false end.
 Definition mem (k : string) (l : list string) : bool := existsb (String.eqb k) l.
